@@ -325,6 +325,9 @@ func c10StatObject(c *Ctx, a *sketchAnchors, rule string, part string) {
 		for _, fn := range accum {
 			ok := len(pos) > 0
 			for _, p := range pos {
+				if _, written := storesOf(p)[fn]; !written && unitFactorPath(p, factor) {
+					continue // x*1 is x for every float64: under the evidence `factor == 1` the update may be skipped
+				}
 				if !isScaled(storesOf(p)[fn], fn, factor) {
 					ok = false
 				}
@@ -966,4 +969,18 @@ func c10Decode(c *Ctx, a *sketchAnchors) {
 	}
 	c.R.check(bad == "" && nSucc > 0 && nGuardErr > 0, "C10-D5", shortFn(f)+"/missing-statistics-guard", shortFn(f), c.fpos(f),
 		"every success return has consulted the decoded count; a non-empty sketch without statistics is refused", firstNonEmpty(bad, fmt.Sprintf("%d success path(s), %d guard error path(s)", nSucc, nGuardErr)))
+}
+
+// unitFactorPath: the path has taken `factor == 1` (or left `factor != 1`).
+func unitFactorPath(p *Path, factor *Term) bool {
+	for _, cd := range p.Conds {
+		t := cd.Term
+		if (t.isBin("==") || t.isBin("!=")) && cd.Taken == t.isBin("==") {
+			x, y := stripConv(t.Args[0]), stripConv(t.Args[1])
+			if x.Key() == factor.Key() && y.isConst("1") || y.Key() == factor.Key() && x.isConst("1") {
+				return true
+			}
+		}
+	}
+	return false
 }
